@@ -363,6 +363,16 @@ def hashseed_batch(tier, seed_value):
                                "distinct_digests": len(set(mine))}}
 
 
+def _net_split_strategy(tier):
+    from . import c03_net
+    return c03_net.net_split_strategy(tier)
+
+
+def _run_net_split(case):
+    from . import c03_net
+    return c03_net.run_net_split(case)
+
+
 PROP = Property(
     "C03",
     rule=("(split) generated kernel program + generated split plan (run(until=now+d) with d from the delay grid incl. d<=0, "
@@ -373,12 +383,16 @@ PROP = Property(
           "run (metamorphic), with all C01/C02/C04 bookkeeping clauses live in both. Non-trivial = >=2 effective stops of "
           "which >=1 at an instant with other due occurrences or on an event with waiters. (twice) same program executed "
           "twice in-process. (hashseed_batch) a batch of generated programs and network scenarios re-executed in fresh "
-          "interpreters under several PYTHONHASHSEED values, SHA-256 of traces compared."),
+          "interpreters under several PYTHONHASHSEED values, SHA-256 of traces compared. (net_split) generated network pipelines "
+          "(C08 grammar: generators -> elements -> sinks, seeded wire loss/RED) run uninterrupted, split by run(until)/step "
+          "sequences, and repeated: the global tap trace must be identical."),
     facets=[Facet("split", split_strategy, run_split, quick=2500, thorough=15000,
                   essential=["stop at busy instant", "until-event with earlier waiters", "until-event with later waiters",
                              "step-only segment", "stop at float-inexact offset",
                              "illegal stop refused", "until-event already processed", "until-event never triggered"]),
-            Facet("twice", prog_strategy, run_twice, quick=300, thorough=2000)],
+            Facet("twice", prog_strategy, run_twice, quick=300, thorough=2000),
+            Facet("net_split", _net_split_strategy, _run_net_split, quick=250, thorough=2000,
+                  essential=["network scenario split"])],
     assumptions=["a failed until-event may be raised or returned (statement silent)",
                  "other interpreters = fresh processes of the one CPython present, PYTHONHASHSEED varied"],
     extra=hashseed_batch,
